@@ -71,11 +71,11 @@ pub fn run(ctx: &Ctx) {
     }
 
     if on("stream") {
-        ctx.run_prop("stream", ctx.cases(220, 6000), stream::stream_strategy(th, false), tracked(&max_delta, stream::run_stream));
+        ctx.run_prop("stream", ctx.cases(180, 4500), stream::stream_strategy(th, false), tracked(&max_delta, stream::run_stream));
         lap("stream");
     }
     if on("eintr") {
-        ctx.run_prop("eintr", ctx.cases(120, 4000), stream::stream_strategy(th, true), tracked(&max_delta, stream::run_stream));
+        ctx.run_prop("eintr", ctx.cases(100, 3000), stream::stream_strategy(th, true), tracked(&max_delta, stream::run_stream));
         lap("eintr");
     }
     if on("timeouts") {
@@ -118,7 +118,7 @@ pub fn run(ctx: &Ctx) {
     // LAST: a fault inside the control-message iterator kills the process that runs the case
     // body (a forked child by default, the worker itself with C16_FDPASS_INPROCESS=1)
     if on("fdpass") {
-        ctx.run_prop("fdpass", ctx.cases(400, 20_000), fdpass::fd_strategy(), fdpass::run_fdpass);
+        ctx.run_prop("fdpass", ctx.cases(800, 20_000), fdpass::fd_strategy(), fdpass::run_fdpass);
         fdpass::remove_pool();
         lap("fdpass");
     }
